@@ -22,8 +22,10 @@ LEVEL_TEXT = ('Lean 4 theorems over a line-by-line model of Counter / numToRoman
               'List, eqnarray, newtheorem, appendix: step_resets_exactly (a step zeroes exactly the counters declared within it, transitively, '
               'for every store and every reset relation, and reports a cycle instead of looping), set/add change one counter, '
               'roman_standard (all n in 1..4999, by digit decomposition of the translated numToRoman), alph_standard (1..26), '
-              'format evaluation and trimLeft, and over arbitrary event histories: consecutive numbering, starred / too-deep / \\item[label] '
-              'print nothing, shared counters interleave, numbered-within restarts, enumerate counts 1,2,3 and restarts in nested lists. '
+              'format evaluation = declarative nested substitution (fmt_eval, sound + complete + deterministic, model fuel sufficient on ranked tables) and trimLeft, '
+              'and over arbitrary event histories: consecutive numbering (consecutive_numbers_history: decidable "no event names the counter or one above it"), starred / too-deep / \\item[label] '
+              'print nothing, shared counters interleave, numbered-within restarts, enumerate_counts_from_one (List.invoke invariant preserved by every safe event, '
+              'items print 1,2,3 restarting in every nested list, labelled items do not count). '
               'numToRoman and the class counter tables are regenerated from the live code on every run; the model is tied to the code by '
               'differential execution (exhaustive for the representations) and generated documents are checked against an independent LaTeX oracle. '
               'Which construct steps when (document level) is carried by the doc8 stream only.')
@@ -33,7 +35,10 @@ LEVEL_NOTE = ('Trusted: Lean kernel (axioms propext, Classical.choice, Quot.soun
 TECHNIQUE = 'Lean 4 proof (induction on reset fuel / histories, digit decomposition) + AST-translated numToRoman + probed class tables + differential correspondence'
 TRUSTED = ['regex splitting of TheCounter.format into pieces is done by the harness with the regexes copied from the code (fmt stream validates it)',
            'document -> event sequence (which macro steps which counter when) is tied by the doc8 stream only']
-ASSUMPTIONS = ['roman_standard: the thousands prefix and the append-only structure are proved by induction, the map of 0..999 to three roman digits is a kernel-checked finite table (decide +kernel)',
+ASSUMPTIONS = ['roman_standard is structural: thousands prefix by induction, the twelve regenerated statements are recognised (decide on the table) as three scaled copies of one digit program, '
+               'each stage proved by a scaling lemma + ten closed digit cases; the kernel evaluation of 0..999 is kept only as a cross-check',
+               'enumerate_counts_from_one / list_invariant_*: hypotheses ListInv (class table well-formed for lists, checked by the kernel on the regenerated tables), listSafe events and '
+               'well-nested lists (stackAfter defined); the driver re-checks these decidable hypotheses on every generated document inside the oracle domain',
                'reading a counter that does not exist creates it (Counters.__getitem__); that side effect inside \\the... evaluation is not modelled, the value read (0) is',
                'generated documents keep lists balanced and at most 4 deep, do not manipulate enumi..enumiv explicitly, use \\nonumber only inside eqnarray rows, '
                'place a unit heading right after \\appendix, keep counters non-negative, and number theorems only within units that print a number',
@@ -386,6 +391,8 @@ class DocGen:
             elif r < 0.5 and self.user:
                 c = rng.choice(self.user)
                 self.src.append('\\stepcounter{%s}' % c); self.ev.append('S:%s' % c)
+            elif r < 0.56:
+                self.counter_op()         # explicit manipulation of a non-list counter inside a list
         self.src.append('\\end{%s}' % kind)
         self.ev.append('EL')
         self.depth -= 1
@@ -517,7 +524,7 @@ def fresh_doc():
     from plasTeX.TeX import TeX
     from plasTeX import TeXDocument
     from plasTeX.Base.LaTeX.Lists import List
-    List.depth = 0            # class attribute shared by all documents of the process (C17's subject, not C08's)
+    List.depth = 0            # older trees kept the depth on the class (now per document in userdata); harmless reset
     doc = TeXDocument()
     return doc, TeX(doc)
 
@@ -645,6 +652,11 @@ def judge(o):
             srefs, svals = o.spec.split('#')
             have = set(vals.split(','))
             o.prop_ok = (refs == srefs and all(v in have for v in svals.split(',') if v))
+        # a document inside the LaTeX oracle's domain must satisfy the decidable hypotheses of the list theorems
+        # (listSafe events, well-nested lists, ListInv of the class table); otherwise the generator left their domain
+        if o.aux and o.aux[0] != 'L:true:true:true':
+            o.corr_ok = False
+            o.note = 'hypotheses of enumerate_counts_from_one do not hold on this input: ' + o.aux[0]
     else:
         o.prop_ok = (o.impl == o.spec)
 
